@@ -46,7 +46,7 @@ CONFIG = dict(
     bin="c16",
     drv="drv_c16",
     lean_modules=["MahfModel.Props.C16", "MahfModel.Props.C16Size", "MahfModel.Props.C16Iter", "MahfModel.Props.C16Param",
-                  "MahfModel.Props.C16Guard"],
+                  "MahfModel.Props.C16Guard", "MahfModel.Props.C16Budget"],
     namespaces=["MahfModel.Props.C16"],
     pregen=pregen,
     shrink=False,
@@ -62,8 +62,17 @@ CONFIG = dict(
           "deviations, zero ants, two cities) + per template 60 (quick) / 160 (thorough) points drawn inside the documented "
           "domain with a bias to its borders, on 7 instances per kind (adds dimension 1, OneMax 1 and 2 bits, TSP with 2 and 3 "
           "cities and with two cities at the same place), terminated by LessThanN::iterations(k), LessThanN::evaluations(n) "
-          "(only where every pass evaluates), iterations(k) & evaluations(n), iterations(k) | evaluations(n) (k >= 1); runs in "
-          "a worker under a 60 s watchdog. (3) constructor stream `(ctor NAME (ps ...))`: per template 50 / 200 points inside, "
+          "(only where every pass evaluates), iterations(k) & evaluations(n), iterations(k) | evaluations(n) (k >= 1); for the two "
+          "ILS templates the condition of the scoped local search is part of the input as well, `(inner KIND K N)`, and is "
+          "drawn from the same four kinds (3 of 5 points; budgets 1..31 evaluations, bounds 0..5; an evaluation budget alone "
+          "or in an OR only with >= 1 neighbour per pass; default: iterations(last parameter)); a quarter of all points "
+          "carry `(runs R)`, R in {2, 3}: Configuration::run is then called R times on ONE state prepared as optimize_with "
+          "prepares it (the caller puts an empty population stack in place before every later run; everything else, counters "
+          "included, is what the previous run left); 12 further fixed points (inner evaluation budgets 6 / 2 and 10 / 4 - "
+          "3 passes in every local search -, inner AND / OR, outer and inner budget together, reruns of evaluation- and "
+          "iteration-bounded templates incl. ILS). Observed per run: every completed execution of a Loop component "
+          "(loop passes around it, passes it made; first 400 + total), passes per nesting depth, final Iterations / "
+          "Evaluations; runs in a worker under a 60 s watchdog. (3) constructor stream `(ctor NAME (ps ...))`: per template 50 / 200 points inside, "
           "on and beyond the borders of the documented domain (negative, 0, 1, 2, >2, huge, inf, NaN reals; 0..1000 naturals), "
           "constructor outcome only. (4) size probes: every size-relevant component built by its real constructor over a "
           "parameter grid and executed once on 58 prepared stacks (sizes 0..15 incl. odd, empty and unequal operands, empty stack). "
@@ -78,10 +87,13 @@ CONFIG = dict(
         "opOf (declared effect of each component on population sizes, Model/TemplatesSize.lean) is read from each component's execute; for every executed step the observed size after is checked to lie in the interval sizeStep predicts from the observed sizes of the top three populations before (K), but it is not proved from the Rust source",
         "guardOf (size precondition per component) is read from each component's execute/select/replace; on every size probe where it holds the real component must succeed, i.e. a refusal implies a violated guardOf (K); not proved from the Rust source",
         "the loop-counter model (Loop::init/execute, Scope re-initialisation, LessThanN, And/Or) is read from control_flow.rs / conditions; validated by pass counts per nesting depth, by the final Iterations value and by the check that no executed leaf changes the visible Iterations (K)",
+        "the two-counter model (Model/TemplatesBudget.lean: Iterations and Evaluations per registry, insert on init, innermost registry on every access, Scope = child registry initialised on every execution, Configuration::run = init + execute on the given state, LessThanN over both lenses, And/Or, the evaluator adds the size of the current population) is read from control_flow.rs / evaluation.rs / conditions / state/registry; validated on every explicit-parameter run: the sequence of loop executions with their pass counts, the passes per depth and the final Iterations (O) and final Evaluations (K) of every run equal the prediction",
+        "the evaluation amount at every evaluator is taken from the size analysis (toB: the interval sizeStep gives for the current population; only an exact size yields a prediction - not for invasive weed, firefly, chemical reaction, for which the observational check remains); tied to the code by the size K-checks and by the final Evaluations value",
         "tplT (Model/TemplatesParam.lean: each template constructor as a function of its parameters) is hand-written; on every explicit-parameter run its size skeleton, its loop conditions and the verdicts of the analyses are compared with the tree the real constructor built (K)",
         "the name-preserving serde serializer + tree translators (harness/src/sertree.rs, ofSexp / SComp.ofSexp / LComp.ofSexp)",
         "step observer hook H1 (cfg mahf_verif) reports heights faithfully"],
-    assumptions=["conditions other than the iteration bound, seeds, branch outcomes, iteration counts and failure points are an arbitrary oracle in the theorems",
+    assumptions=["seeds, branch outcomes, failure points and conditions other than LessThanN::iterations / LessThanN::evaluations and their & / | combinations are an arbitrary oracle in the theorems (the pass-count theorems of Props/C16Budget need conditions built from the two bounds and no branch that evaluates)",
+                 "a run on a state that has been used before: the caller has replaced the population stack by an empty one; the evaluation counter a scoped heuristic's budget refers to is its own (the one its evaluator creates in the scope), the one of the outer loop is the caller's, which does not see the scoped evaluations (how the code behaves; whether the outer counter should include them is C06's finding - demanded here only as agreement with the current behaviour)",
                  "valid parameters = the documented domains (docValidT) plus the size-related requirements guardValidT (1 <= tournament size <= population, mu >= 1, population >= max(1, 2y)); real-valued rates in [0,1], deviations > 0, kinetic_energy_lr in [0,1) (gen_range(lr..1.0) panics at lr = 1; the range is undocumented)",
                  "the population-size bound is proved for all parameter values for 19 templates and decided per instantiated point (kernel) / per explored point (driver) for invasive weed and chemical reaction optimisation",
                  "absence of Err/panic is proved only for the modelled size preconditions (not for chemical reaction optimisation); everything else (numeric failure modes, instance-dependent requirements such as num_swap <= dimension) is explored on the runs"],
@@ -93,7 +105,18 @@ CONFIG = dict(
                 "that each loop made exactly n passes for iterations(n), at most n for iterations(n) & c, at least n for "
                 "iterations(n) | c, and `loop_exactly_n` gives counter = n after exactly n logged passes; counterexample theorems "
                 "for unscoped nests and sequential loops; holds for all templates at all parameter values and on the 84 "
-                "regenerated trees (kernel). (c) Population sizes: interval analysis with checked loop invariants proved sound; "
+                "regenerated trees (kernel). (b2) Evaluation budgets, nesting, reruns (Props/C16Budget): a model of BOTH counters in "
+                "the chain of registries; `predict` computes the pass count of every loop execution statically and "
+                "`pass_counts_sound` proves that EVERY terminating run (all oracles, any fuel, inside any enclosing registries) "
+                "made exactly the predicted loop executions in order with exactly the predicted passes; closed forms "
+                "(`budget_iterations` n - i, `budget_evaluations` ceil((k - v)/e), `budget_and` min, `budget_or` max, "
+                "`first_stop_characterised`); `scoped_search_independent_of_caller` (a scoped heuristic makes the same passes "
+                "on every entry and leaves the caller's counters alone; counterexample `shared_counter_violates` for a scope "
+                "that counts on its caller's Evaluations); `rerun_counts_as_first_run`; for ALL parameter values: "
+                "`ils_counts_all_parameters` / `ils_evaluation_budget` (real_ils, permutation_ils: p0 outer passes, each with a "
+                "local search of exactly m passes - ceil(budget / n_neighbors) under an evaluation budget) and "
+                "`template_budget_all_parameters` / `template_evaluation_budget` (16 single-loop templates: exactly "
+                "firstStop c e 0 v0 passes with (e, v0) = budgetOf). (c) Population sizes: interval analysis with checked loop invariants proved sound; "
                 "the prescribed bound holds for ALL parameter values for 19 templates (closed forms), kernel-evaluated on the 84 "
                 "regenerated trees (incl. invasive weed and chemical reaction: [1, inf)). (d) No error at a size precondition: "
                 "`guards_satisfied` - if the guard analysis answers, no execution ever reaches a component whose size "
@@ -105,9 +128,12 @@ CONFIG = dict(
                 "depth equal the interpreter's prediction; the tree built from an explicit parameter point has the size skeleton and "
                 "loop conditions of tplT at that point and the analyses answer on it what the all-parameter theorems say; the "
                 "constructor's outcome equals the modelled checks; every probe's ok/err equals the modelled precondition. Run-level "
-                "oracle: result Ok, exact pass counts (outer and scoped inner loop) resp. termination exactly where an evaluation "
-                "budget / composite condition says, per-pass balance, final height 1, size within the bound computed on the "
-                "Lean side from the parameters."),
+                "oracle: result Ok; the loop executions of the run, each with its pass count, are exactly those the PARAMETERS "
+                "prescribe (computed on the Lean side by `predict` from tplT at the parameter point, the termination condition "
+                "and, for ILS, the local-search condition of the input: outer loop and every single scoped local search, under "
+                "iteration bounds, evaluation budgets, AND, OR) - for the first run and for every later run on the same state "
+                "(class iters / iters-rerun); in addition termination exactly where the observed counters say; per-pass balance, "
+                "final height 1 after every run, size within the bound computed on the Lean side from the parameters."),
     level_note=("partial: 'no Err/panic for every seed and instance' is proved only for the modelled size preconditions and not for "
                 "chemical reaction optimisation; numeric failure modes are explored. Recorded defects (KNOWN-FINDING, with Lean "
                 "counterexamples): real_pso / real_iwo return Err in the first pass under any termination condition without an "
@@ -117,6 +143,9 @@ CONFIG = dict(
                 "template is built WITHOUT its alpha update, no error - the shared grid point v2 has delta = 1.0); "
                 "LessThanN::iterations(0) inside an OR makes Progress = x/0 (real_iwo then fails with 'invalid mutation strength'); "
                 "kinetic_energy_lr = 1.0 panics in real_cro. Trusted: Lean kernel, declared leaf effects / size transformers / "
-                "preconditions / loop-counter model / tplT (all K-validated), serializer/translators, hook H1."),
+                "preconditions / loop-counter model / two-counter model with its evaluation amounts / tplT (all K-validated), "
+                "serializer/translators, hook H1. The pass-count prediction answers only where the evaluation amounts are exact "
+                "(18 of 21 templates); for invasive weed, firefly and chemical reaction optimisation the pass counts under "
+                "evaluation budgets and on reruns are judged on the observed counters only."),
     technique="Lean 4 proofs of sound static analyses (stack effect, loop counters, size intervals, size preconditions) + closed forms for all parameter values + kernel evaluation on trees regenerated from the source on every run + differential run audit with parameters in the input",
 )
